@@ -1,7 +1,241 @@
-import LpModel.C11
+/-
+  C11 — property theorems.  For EVERY objective (`f : Rat → Rat`, `f : List Rat → Rat`, no
+  regularity) and EVERY rounding function `rnd` (so also for exact arithmetic `rnd = id` and for
+  the driver's round-to-double): the minimisers never end worse than they started and the state
+  they report is the objective at the returned point.  Convergence on bowls is NOT a theorem
+  (correspondence / oracle only, see props/c11.py CORR_ONLY).
+-/
+import LpProofs.C11.OneDim
+import LpProofs.C11.Simplex
+import LpProofs.C11.Psum
+import LpProofs.C11.InBracket
 namespace Lp.C11
 
-theorem findMaximum_neg (rnd : Rat → Rat) (f : Rat → Rat) (xl xr tol : Rat) (fuel : Nat) :
+/-! ## one dimension -/
+section
+variable (rnd : Rat → Rat) (f : Rat → Rat)
+
+/-- `Bracket`: on return the stored values are the objective at the stored abscissae, the middle
+    one is the smallest of the three and not above either starting value. -/
+theorem bracket_best (a b : Rat) (fuel : Nat) (s : Br) (t : List Ev)
+    (h : bracket rnd f a b fuel = (some s, t)) :
+    s.fb ≤ s.fa ∧ s.fb ≤ s.fc ∧ s.fa = f s.ax ∧ s.fb = f s.bx ∧ s.fc = f s.cx ∧
+      s.fb ≤ min (f a) (f b) := by
+  unfold bracket at h
+  simp only [Prod.mk.injEq] at h
+  obtain ⟨h1, _⟩ := h
+  obtain ⟨hs, hbc⟩ := bracketLoop_inv rnd f fuel _ s (bracketLoop rnd f fuel (bracketInit rnd f a b).1).2
+    (bracketInit_inv rnd f a b) (by rw [← h1])
+  exact ⟨hs.hba, hbc, hs.ha, hs.hb, hs.hc, hs.hM⟩
+
+/-- `Brent::Minimize`: `f_min = f(x_min)` and it is not above the value at the middle point of
+    the bracket it was given (`fx = f x` is an invariant, `fx` never increases). -/
+theorem brent_best (tol : Rat) (s : Br) (x fx m : Rat) (t : List Ev)
+    (h : brent rnd f tol s = (.ok x fx m, t)) : fx = f x ∧ fx ≤ f s.bx := by
+  unfold brent at h
+  simp only [Prod.mk.injEq] at h
+  obtain ⟨h1, _⟩ := h
+  have h0 : BtInv f (f s.bx) (brentInit f s).1 := ⟨rfl, le_refl _⟩
+  exact brentLoop_inv rnd f ITMAX _ x fx m (brentLoop rnd f tol ITMAX (brentInit f s).1).2 h0 (by rw [← h1])
+
+/-- `Find_Minimum` never ends worse than the better of its two starting abscissae, and the
+    reported minimum value is the objective at the returned point. -/
+theorem findMinimum_best (xl xr tol : Rat) (fuel : Nat) (x fx m : Rat) (t : List Ev)
+    (h : findMinimum rnd f xl xr tol fuel = (.ok x fx m, t)) :
+    fx = f x ∧ f x ≤ min (f xl) (f xr) := by
+  unfold findMinimum at h
+  split at h
+  · simp at h
+  · rename_i s t0 hb
+    simp only [Prod.mk.injEq] at h
+    obtain ⟨h1, _⟩ := h
+    obtain ⟨_, _, _, hfb, _, hM⟩ := bracket_best rnd f xl xr fuel s t0 hb
+    obtain ⟨hx, hle⟩ := brent_best rnd f tol s x fx m (brent rnd f tol s).2 (by rw [← h1])
+    refine ⟨hx, ?_⟩
+    rw [← hx]
+    exact le_trans hle (by rw [← hfb]; exact hM)
+
+/-- `Find_Maximum(f)` is `Find_Minimum(-f)`, literally. -/
+theorem findMaximum_neg (xl xr tol : Rat) (fuel : Nat) :
     findMaximum rnd f xl xr tol fuel = findMinimum rnd (fun x => -1 * f x) xl xr tol fuel := rfl
+
+/-- `Find_Maximum` never ends below the better of its two starting abscissae. -/
+theorem findMaximum_best (xl xr tol : Rat) (fuel : Nat) (x fx m : Rat) (t : List Ev)
+    (h : findMaximum rnd f xl xr tol fuel = (.ok x fx m, t)) :
+    fx = -f x ∧ max (f xl) (f xr) ≤ f x := by
+  obtain ⟨h1, h2⟩ := findMinimum_best rnd (fun x => -1 * f x) xl xr tol fuel x fx m t h
+  refine ⟨by simpa using h1, ?_⟩
+  simp only [neg_mul, one_mul, le_min_iff, neg_le_neg_iff] at h2
+  exact max_le h2.1 h2.2
+
+/-- `brent_in_bracket` (exact arithmetic `rnd = id`, `0 ≤ tol`): given a triple whose middle point
+    lies between the outer ones, every abscissa at which `Brent::Minimize` evaluates the objective
+    lies between the outer points.  (Under IEEE rounding the clause is left to the correspondence
+    run and the oracle; the bookkeeping half holds for every `rnd`, see below.) -/
+theorem brent_in_bracket (f : Rat → Rat) (tol : Rat) (htol : 0 ≤ tol) (s : Br)
+    (h1 : min s.ax s.cx ≤ s.bx) (h2 : s.bx ≤ max s.ax s.cx) :
+    ∀ ev ∈ (brent id f tol s).2, min s.ax s.cx ≤ ev.1 ∧ ev.1 ≤ max s.ax s.cx := by
+  have ha : (brentInit f s).1.a = min s.ax s.cx := by
+    unfold brentInit; dsimp only
+    split_ifs with h
+    · exact (min_eq_left (le_of_lt h)).symm
+    · exact (min_eq_right (not_lt.mp h)).symm
+  have hb : (brentInit f s).1.b = max s.ax s.cx := by
+    unfold brentInit; dsimp only
+    split_ifs with h
+    · exact (max_eq_left (le_of_lt h)).symm
+    · exact (max_eq_right (not_lt.mp h)).symm
+  intro ev hev
+  unfold brent at hev
+  simp only [List.mem_append] at hev
+  rcases hev with hev | hev
+  · unfold brentInit at hev
+    simp only [List.mem_singleton] at hev
+    subst hev
+    exact ⟨h1, h2⟩
+  · have := brentLoop_in_bracket htol ITMAX (brentInit f s).1 (by rw [ha]; exact h1) (by rw [hb]; exact h2) ev hev
+    rwa [ha, hb] at this
+
+/-- bookkeeping half of `brent_in_bracket`, for EVERY `rnd`: if the trial abscissa of a pass
+    lies in `[a,b]`, the new bracket is nested in the old one and contains the new best point `x`
+    (so the bracket never grows and never loses `x`). -/
+theorem brent_bracket_nested_partial (tol : Rat) (s s' : Bt) (ev : Ev) (h : brentIter rnd f tol s = .next s' ev)
+    (hax : s.a ≤ s.x) (hxb : s.x ≤ s.b) (hau : s.a ≤ ev.1) (hub : ev.1 ≤ s.b) :
+    s'.a ≤ s'.x ∧ s'.x ≤ s'.b ∧ s.a ≤ s'.a ∧ s'.b ≤ s.b :=
+  brentIter_nested rnd f h hax hxb hau hub
+
+end
+
+/-! ## Nelder–Mead -/
+section
+variable (rnd : Rat → Rat) (f : Pt → Rat)
+
+/-- `nm_values_consistent` / `nm_best_monotone`, one pass: every pass of the loop that continues
+    (reflection, expansion, contraction, shrink — where the vertex is written through `psum`)
+    keeps `y[i] = f(simplex[i])` for all `i`, keeps the number of vertices, and never loses the
+    best value: whatever bound `M` some vertex value met before the pass, one meets after it. -/
+theorem nm_step_invariants (ftol : Rat) (ndim : Nat) (s s' : NM) (tr : List EvN) (hn : 2 ≤ s.y.length)
+    (hinv : s.y = s.p.map f) (h : nmStep rnd f ftol ndim s = .cont s' tr) :
+    s'.y = s'.p.map f ∧ s'.y.length = s.y.length ∧ ∀ M, Below s.y M → Below s'.y M :=
+  nmStep_cont rnd f hn hinv h
+
+/-- `psum = column sums` (exact arithmetic): it holds when the loop is entered … -/
+theorem nm_psum_init (pp : List Pt) (ndim : Nat) :
+    PsInv ndim { p := pp, y := pp.map f, psum := getPsum id ndim pp, nfunc := 0 } := rfl
+
+/-- … and every pass that continues re-establishes it (incremental update in `amotry`,
+    recomputation after the shrink step). -/
+theorem nm_psum_colsums (ftol : Rat) (ndim : Nat) (s s' : NM) (tr : List EvN) (hn : 2 ≤ s.y.length)
+    (hinv : s.y = s.p.map f) (hps : s.psum = getPsum id ndim s.p) (h : nmStep id f ftol ndim s = .cont s' tr) :
+    s'.psum = getPsum id ndim s'.p :=
+  nmStep_psum f hn hinv hps h
+
+/-- the loop: values stay consistent with the vertices; whatever bound some vertex value met at
+    the start, the reported minimum meets; the result is vertex 0 and best-first -/
+theorem nmLoop_spec {ftol : Rat} {ndim : Nat} : ∀ (n : Nat) (s s' : NM) (pmin : Pt) (fmin m : Rat) (t : List EvN),
+    2 ≤ s.y.length → NMInv f s → nmLoop rnd f ftol ndim n s = (.ok pmin fmin s' m, t) →
+    NMInv f s' ∧ fmin = f pmin ∧ pmin = s'.p.getD 0 [] ∧ fmin = s'.y.getD 0 0 ∧
+      (∀ v ∈ s'.y, fmin ≤ v) ∧ (∀ M, Below s.y M → fmin ≤ M)
+  | 0, s, s', pmin, fmin, m, t, _, _, h => by simp [nmLoop] at h
+  | n + 1, s, s', pmin, fmin, m, t, hn, hinv, h => by
+    unfold nmLoop at h
+    split at h
+    · rename_i p1 f1 s1 m1 heq
+      simp only [Prod.mk.injEq, OutN.ok.injEq] at h
+      obtain ⟨⟨rfl, rfl, rfl, rfl⟩, _⟩ := h
+      exact nmStep_done rnd f hn hinv heq
+    · simp at h
+    · rename_i s1 tr heq
+      simp only [Prod.mk.injEq] at h
+      obtain ⟨h1, _⟩ := h
+      obtain ⟨hinv1, hlen, hbel⟩ := nmStep_cont rnd f hn hinv heq
+      obtain ⟨a, b, c, d, e, g⟩ := nmLoop_spec n s1 s' pmin fmin m (nmLoop rnd f ftol ndim n s1).2
+        (by rw [hlen]; exact hn) hinv1 (by rw [← h1])
+      exact ⟨a, b, c, d, e, fun M hM => g M (hbel M hM)⟩
+
+/-- `nm_values_consistent` + `nm_best_monotone` for `minimize(pp, func)`: on return
+    `y = map f simplex` (every `y[i]` is the objective at vertex `i`, including after shrink steps),
+    `fmin = f(pmin) = y[0]`, `pmin` is vertex 0, the simplex is best-first, and the result is not
+    worse than ANY vertex of the initial simplex. -/
+theorem nelderMead_best (ftol : Rat) (pp : List Pt) (fuel : Nat) (pmin : Pt) (fmin m : Rat) (s : NM) (t : List EvN)
+    (h : nelderMead rnd f ftol pp fuel = some (.ok pmin fmin s m, t)) :
+    s.y = s.p.map f ∧ fmin = f pmin ∧ pmin = s.p.getD 0 [] ∧ fmin = s.y.getD 0 0 ∧
+      (∀ v ∈ s.y, fmin ≤ v) ∧ (∀ v ∈ pp, f pmin ≤ f v) := by
+  unfold nelderMead at h
+  split_ifs at h with hw
+  simp only [Option.some.injEq, Prod.mk.injEq] at h
+  obtain ⟨h1, _⟩ := h
+  have h2 : 2 ≤ pp.length := by
+    unfold wellFormed at hw
+    simp only [Bool.and_eq_true, decide_eq_true_eq] at hw
+    exact hw.1.1
+  obtain ⟨a, b, c, d, e, g⟩ := nmLoop_spec rnd f fuel
+    { p := pp, y := pp.map f, psum := getPsum rnd (pp.getD 0 []).length pp, nfunc := 0 } s pmin fmin m
+    (nmLoop rnd f ftol (pp.getD 0 []).length fuel
+      { p := pp, y := pp.map f, psum := getPsum rnd (pp.getD 0 []).length pp, nfunc := 0 }).2
+    (by simpa using h2) rfl (by rw [← h1])
+  refine ⟨a, b, c, d, e, ?_⟩
+  intro v hv
+  rw [← b]
+  obtain ⟨i, hi, rfl⟩ := List.getElem_of_mem hv
+  exact g (f pp[i]) ⟨i, f pp[i], by simp [List.getElem?_eq_getElem hi], le_refl _⟩
+
+/-- `nm_three_overloads` (1): the `delta` overload is the `deltas` overload with a constant vector;
+    the `deltas` overload is the general one on `simplexOf`. -/
+theorem nelderMeadDelta_eq (ftol : Rat) (start : Pt) (delta : Rat) (fuel : Nat) :
+    nelderMeadDelta rnd f ftol start delta fuel =
+      nelderMeadDeltas rnd f ftol start (List.replicate start.length delta) fuel := rfl
+
+theorem nelderMeadDeltas_eq (ftol : Rat) (start deltas : Pt) (fuel : Nat) (h : start.length ≤ deltas.length) :
+    nelderMeadDeltas rnd f ftol start deltas fuel = nelderMead rnd f ftol (simplexOf rnd start deltas) fuel := by
+  unfold nelderMeadDeltas
+  rw [if_neg (by omega)]
+
+/-- `nm_three_overloads` (2): `simplexOf` is the documented initial simplex: `n+1` vertices;
+    vertex 0 is the starting point, vertex `i ≥ 1` differs from it in coordinate `i-1` only,
+    by the (rounded) addition of `deltas[i-1]`. -/
+theorem simplexOf_length (start deltas : Pt) : (simplexOf rnd start deltas).length = start.length + 1 := by
+  simp [simplexOf]
+
+theorem simplexOf_entry (start deltas : Pt) (i j : Nat) (hi : i ≤ start.length) (hj : j < start.length) :
+    ((simplexOf rnd start deltas).getD i []).getD j 0 =
+      if i ≠ 0 ∧ j = i - 1 then rnd (start.getD j 0 + deltas.getD j 0) else start.getD j 0 := by
+  have hi' : i < start.length + 1 := by omega
+  simp [simplexOf, List.getD_eq_getElem?_getD, hi', hj]
+
+theorem simplexOf_row_length (start deltas : Pt) (i : Nat) (hi : i ≤ start.length) :
+    ((simplexOf rnd start deltas).getD i []).length = start.length := by
+  have hi' : i < start.length + 1 := by omega
+  simp [simplexOf, List.getD_eq_getElem?_getD, hi']
+
+/-- all three overloads never end worse than any vertex of their documented initial simplex -/
+theorem nelderMeadDelta_best (ftol : Rat) (start : Pt) (delta : Rat) (fuel : Nat) (pmin : Pt) (fmin m : Rat) (s : NM)
+    (t : List EvN) (h : nelderMeadDelta rnd f ftol start delta fuel = some (.ok pmin fmin s m, t)) :
+    fmin = f pmin ∧ ∀ v ∈ simplexOf rnd start (List.replicate start.length delta), f pmin ≤ f v := by
+  rw [nelderMeadDelta_eq, nelderMeadDeltas_eq rnd f ftol start _ fuel (by simp)] at h
+  obtain ⟨_, b, _, _, _, g⟩ := nelderMead_best rnd f ftol _ fuel pmin fmin m s t h
+  exact ⟨b, g⟩
+
+end
+
+/-! ## non-vacuity: concrete runs that terminate with `ok` (so the hypotheses are met) -/
+
+example : ∃ x fx m t, findMinimum (rndK 8) (fun x => (x - 3) * (x - 3)) 0 1 (1/100) 20 = (.ok x fx m, t) :=
+  exists_of_isOk (by decide +kernel)
+
+example : ∃ x fx m t, findMaximum (rndK 8) (fun x => 4 - (x - 3) * (x - 3)) 0 1 (1/100) 20 = (.ok x fx m, t) :=
+  exists_of_isOk (by decide +kernel)
+
+example : min (0 : Rat) 2 ≤ 1 ∧ (1 : Rat) ≤ max 0 2 := by constructor <;> norm_num
+
+example : ∃ s t, bracket (rndK 8) (fun x => (x - 3) * (x - 3)) 0 1 20 = (some s, t) := by
+  have h : (bracket (rndK 8) (fun x => (x - 3) * (x - 3)) 0 1 20).1.isSome = true := by decide +kernel
+  obtain ⟨s, hs⟩ := Option.isSome_iff_exists.mp h
+  exact ⟨s, _, Prod.ext hs rfl⟩
+
+example : ∃ p fm s m t, nelderMeadDelta (rndK 8)
+    (fun x => (x.getD 0 0 - 1) * (x.getD 0 0 - 1) + (x.getD 1 0) * (x.getD 1 0)) (1/10) [0, 1] 1 60 =
+      some (.ok p fm s m, t) :=
+  exists_of_isOkN (by decide +kernel)
 
 end Lp.C11
